@@ -362,6 +362,23 @@ class Scheduler:
                 return False
         return True
 
+    def fire_next_timer(self):
+        """A running thread spins without any event in the world: model the passage of time by
+        advancing the virtual clock to the earliest deadline (the woken thread gets the baton
+        through the fairness rule).  Returns False if there is no timer."""
+        timed = [t for t in self.threads if t.state == BLOCKED and t.deadline is not None]
+        if not timed:
+            return False
+        dl = min(t.deadline for t in timed)
+        if dl > self.now:
+            self.now = dl
+        for t in timed:
+            if t.deadline <= self.now:
+                t.timed_out = True
+                self._make_runnable(t, "timeout")
+        self.count("clock-advances-while-spinning")
+        return True
+
     def sleep(self, dt):
         self.block(("sleep",), dt)
 
